@@ -108,6 +108,51 @@ Edges(shape, P, C) ==
       [] shape = "multi2"     -> <<E(P, C, "direct"), E(IntT, IntT, "direct")>>
       [] shape = "multi2x"    -> <<E(P, C, "direct"), E(IntT, StrT, "direct")>>
 
+(* The via labels above are what TypeCompat!ViaOf derives from the MapSpecs the user wrote on f and g. *)
+xi == Arr("x", <<"i">>)   yi == Arr("y", <<"i">>)   zi == Arr("z", <<"i">>)
+ShapeMS(shape) ==
+    CASE shape = "direct2"    -> <<NoMS, NoMS>>
+      [] shape = "emap2"      -> <<MS(<<xi>>, <<yi>>), MS(<<yi>>, <<zi>>)>>
+      [] shape = "reduce2"    -> <<MS(<<xi>>, <<yi>>), NoMS>>
+      [] shape = "preduce2"   -> <<MS(<<Arr("x", <<"i", "j">>)>>, <<Arr("y", <<"i", "j">>)>>), MS(<<Arr("y", <<"i", ":">>)>>, <<zi>>)>>
+      [] shape = "generated2" -> <<NoMS, MS(<<yi>>, <<zi>>)>>
+      [] shape = "internal2"  -> <<MS(<<>>, <<yi>>), NoMS>>
+ASSUME \A sh \in {"direct2", "emap2", "reduce2", "preduce2", "generated2", "internal2"} :
+          ViaOf(ShapeMS(sh)[1], ShapeMS(sh)[2], "y") = Edges(sh, IntT, IntT)[1].via
+
+(* NAMED shapes: the edges are not listed but DERIVED (TypeCompat!NamedEdges) from a producer with declared   *)
+(* output names, a return annotation per position, rename steps and a MapSpec, and a consumer with named      *)
+(* parameters and its own MapSpec.                                                                             *)
+(* ren_ctor_one   f() -> (s, d) : tuple[P, int], renames={s: t}            ;  g(t: C, d: int)                   *)
+(* ren_ctor_swap  f() -> (s, d) : tuple[P, int], renames={s: d, d: s}      ;  g(d: C, s: int)                   *)
+(* ren_upd_one    as ren_ctor_one but f.update_renames({s: t}) after construction                               *)
+(* ren_upd_swap   as ren_ctor_swap but f.update_renames({s: d, d: s}) after construction                        *)
+(* ren_twice      renames={s: t}, then f.update_renames({t: u})            ;  g(u: C, d: int)                   *)
+(* ren_scope      f.update_scope("sc", outputs="*")  ;  g(s: C, d: int) with g.update_scope("sc", inputs="*")  *)
+(* reduce_other2  f: x[i] -> y[i] returns P  ;  g(y: C, w) with its own MapSpec w[j] -> z[j]  (y taken whole)   *)
+(* direct_other2  f() -> y:P without MapSpec ;  g(y: C, w) with MapSpec w[j] -> z[j]                            *)
+RenameShapes == {"ren_ctor_one", "ren_ctor_swap", "ren_upd_one", "ren_upd_swap", "ren_twice", "ren_scope"}
+NamedShapes  == RenameShapes \cup {"reduce_other2", "direct_other2"}
+Par(n, t) == [n |-> n, t |-> t]
+One   == {<<"s", "t">>}
+Swap  == {<<"s", "d">>, <<"d", "s">>}
+Scope == {<<"s", "sc.s">>, <<"d", "sc.d">>}
+wj == Arr("w", <<"j">>)   zj == Arr("z", <<"j">>)
+Prod2(P, steps, hows) == [outs |-> <<"s", "d">>, anns |-> <<P, IntT>>, steps |-> steps, hows |-> hows, ms |-> NoMS]
+Cons2(n1, C, n2)      == [params |-> <<Par(n1, C), Par(n2, IntT)>>, ms |-> NoMS]
+NamedDesc(shape, P, C) ==
+    CASE shape = "ren_ctor_one"  -> [prod |-> Prod2(P, <<One>>, <<"ctor">>),                cons |-> Cons2("t", C, "d")]
+      [] shape = "ren_ctor_swap" -> [prod |-> Prod2(P, <<Swap>>, <<"ctor">>),               cons |-> Cons2("d", C, "s")]
+      [] shape = "ren_upd_one"   -> [prod |-> Prod2(P, <<{}, One>>, <<"ctor", "update">>),  cons |-> Cons2("t", C, "d")]
+      [] shape = "ren_upd_swap"  -> [prod |-> Prod2(P, <<{}, Swap>>, <<"ctor", "update">>), cons |-> Cons2("d", C, "s")]
+      [] shape = "ren_twice"     -> [prod |-> Prod2(P, <<One, {<<"t", "u">>}>>, <<"ctor", "update">>), cons |-> Cons2("u", C, "d")]
+      [] shape = "ren_scope"     -> [prod |-> Prod2(P, <<{}, Scope>>, <<"ctor", "scope">>), cons |-> Cons2("sc.s", C, "sc.d")]
+      [] shape = "reduce_other2" -> [prod |-> [outs |-> <<"y">>, anns |-> <<P>>, steps |-> <<>>, hows |-> <<>>,
+                                               ms |-> MS(<<xi>>, <<yi>>)],
+                                     cons |-> [params |-> <<Par("y", C), Par("w", NoAnn)>>, ms |-> MS(<<wj>>, <<zj>>)]]
+      [] shape = "direct_other2" -> [prod |-> [outs |-> <<"y">>, anns |-> <<P>>, steps |-> <<>>, hows |-> <<>>, ms |-> NoMS],
+                                     cons |-> [params |-> <<Par("y", C), Par("w", NoAnn)>>, ms |-> MS(<<wj>>, <<zj>>)]]
+
 (* annotations used on pipeline edges *)
 PQuick == {IntT, BoolT, FloatT, StrT, NoneT, AnyT, NoAnn, TVar, At("list"),
            ListOf(IntT), ListOf(BoolT), ListOf(AnyT), SetOf(IntT), DictOf(StrT, IntT),
@@ -121,7 +166,7 @@ PThorough == PQuick \cup {BytesT, At("tuple"), At("dict"), ListOf(FloatT), ListO
 PSet == IF Tier = "quick" THEN PQuick ELSE PThorough
 ASSUME PSet \subseteq Universe
 
-WellFormedPipe(shape, P) == shape \in {"multi2", "multi2x"} => P.k # "NoAnn"    \* tuple[NoAnn, int] cannot be written
+WellFormedPipe(shape, P) == shape \in ({"multi2", "multi2x"} \cup RenameShapes) => P.k # "NoAnn"    \* tuple[NoAnn, int] cannot be written
 
 (* Cases.  To let TLC's workers share the work inside one process, the cases are the SUCCESSORS of one  *)
 (* "row" state per first/producer annotation: pairs row i -> all [i, j]; pipes row p -> all pipelines  *)
@@ -130,14 +175,20 @@ PairRows == {[i |-> i, j |-> 0] : i \in {x \in 1..N : Mine(x)}}
 PairCases(i) == {[i |-> i, j |-> j] : j \in 1..N}
 PipeRows == {[shape |-> "row", p |-> Idx(P), c |-> 0, validate |-> FALSE] : P \in {X \in PSet : Mine(Idx(X))}}
 PipeCases(p) == {[shape |-> s, p |-> p, c |-> Idx(C), validate |-> v] :
-                    s \in {x \in Shapes : WellFormedPipe(x, USeq[p])}, C \in PSet, v \in BOOLEAN}
+                    s \in {x \in Shapes \cup NamedShapes : WellFormedPipe(x, USeq[p])}, C \in PSet, v \in BOOLEAN}
 
 ---------------------------------------------------------------------------
 PairOut(c) == LET A == USeq[c.i]  B == USeq[c.j]
               IN [a |-> A, b |-> B, v |-> Verdict(A, B), why |-> Why(A, B)]
-PipeOut(c) == LET es == Edges(c.shape, USeq[c.p], USeq[c.c])
-              IN [edges |-> es, expect |-> Construct(es, c.validate),
-                  ev |-> [i \in DOMAIN es |-> EdgeVerdict(es[i].p, es[i].c, es[i].via)]]
+PipeOut(c) == IF c.shape \in NamedShapes
+              THEN LET d  == NamedDesc(c.shape, USeq[c.p], USeq[c.c])
+                       es == SetToSeq(NamedEdges(d.prod, d.cons))
+                   IN [edges |-> es, expect |-> ConstructNamed(d.prod, d.cons, c.validate),
+                       ev |-> [i \in DOMAIN es |-> EdgeVerdict(es[i].p, es[i].c, es[i].via)],
+                       prod |-> d.prod, cons |-> d.cons]
+              ELSE LET es == Edges(c.shape, USeq[c.p], USeq[c.c])
+                   IN [edges |-> es, expect |-> Construct(es, c.validate),
+                       ev |-> [i \in DOMAIN es |-> EdgeVerdict(es[i].p, es[i].c, es[i].via)]]
 RowOut == [row |-> TRUE]
 
 Init == IF Part = "pairs" THEN case \in PairRows /\ out = RowOut
@@ -184,12 +235,29 @@ InvPipeEdges     == IsPipe => LET P == USeq[case.p]  C == USeq[case.c] IN
                                      out.expect = (CASE Verdict(P, C) = "yes" \/ HasNoAnn(P) \/ HasNoAnn(C) -> "accept"
                                                      [] OTHER -> IF Verdict(P, C) = "no" THEN "TypeError" ELSE "either")
 
+(* named shapes: renaming moves names, never annotations, so the outcome is that of the un-renamed multi2;   *)
+(* a mapped output the consumer does not index is an object array whatever MapSpec the consumer has itself   *)
+InvNamed         == (IsPipe /\ case.shape \in NamedShapes) =>
+                        LET P == USeq[case.p]  C == USeq[case.c] IN
+                        /\ out.expect = Construct(out.edges, case.validate)
+                        /\ LawRenameKeepsPositions(out.prod)
+                        /\ (case.shape \in RenameShapes) =>
+                               /\ LawRenameInverse(out.prod, Swap) /\ LawRenameInverse(out.prod, {<<"s", "q">>})
+                               /\ out.expect = Construct(Edges("multi2", P, C), case.validate)
+                               /\ {e.via : e \in NamedEdges(out.prod, out.cons)} = {"direct"}
+                        /\ (case.shape = "reduce_other2") => out.expect = Construct(Edges("reduce2", P, C), case.validate)
+                        /\ (case.shape = "direct_other2") => out.expect = Construct(Edges("direct2", P, C), case.validate)
+
 (* export *)
 VCode(v) == CASE v = "no" -> 0 [] v = "yes" -> 1 [] v = "either" -> 2
 WCode(w) == (IF "tv" \in w THEN 1 ELSE 0) + (IF "bare" \in w THEN 2 ELSE 0) + (IF "num" \in w THEN 4 ELSE 0)
 Emit == IF IsPair THEN PrintT(<<"PAIR", case.i, case.j, VCode(out.v), WCode(out.why)>>)
         ELSE IF IsPipe
-        THEN PrintT(<<"PIPE", ToJson([shape |-> case.shape, p |-> case.p, c |-> case.c, validate |-> case.validate,
-                                      edges |-> out.edges, ev |-> out.ev, expect |-> out.expect])>>)
+        THEN IF case.shape \in NamedShapes
+             THEN PrintT(<<"PIPE", ToJson([shape |-> case.shape, p |-> case.p, c |-> case.c, validate |-> case.validate,
+                                           edges |-> out.edges, ev |-> out.ev, expect |-> out.expect,
+                                           prod |-> out.prod, cons |-> out.cons])>>)
+             ELSE PrintT(<<"PIPE", ToJson([shape |-> case.shape, p |-> case.p, c |-> case.c, validate |-> case.validate,
+                                           edges |-> out.edges, ev |-> out.ev, expect |-> out.expect])>>)
         ELSE TRUE
 =============================================================================
